@@ -31,15 +31,31 @@ def kinds_of(items):
     return [tok.item_kind(it)["kind"] for it in items]
 
 
+FLAT_NOTES = {"n": 0}
+
+
+def sig_leaves(ts):
+    """Leaves with None-delimited groups flattened: those invisible delimiters are an artefact of macro_rules fragment
+    capture; syn drops them around lifetimes and paths when it prints a signature again. Inside bodies (brace groups)
+    None-delimited groups are still compared as they are (body_spacing_equal)."""
+    return tok.leaves(ts, flatten_none=True)
+
+
+def note_flatten(a, b):
+    if tok.leaves(a) != tok.leaves(b):
+        FLAT_NOTES["n"] += 1
+
+
 def check_fn(inp, out):
-    li, lo = tok.leaves(inp), tok.leaves(out)
+    li, lo = sig_leaves(inp), sig_leaves(out)
+    note_flatten(inp, out[:len(inp)])
     if lo[:len(li)] != li:
         # locate first difference for the report
         k = next((i for i, (x, y) in enumerate(zip(li, lo)) if x != y), min(len(li), len(lo)))
         return "fn-not-prefix", "output does not start with the input tokens; first difference at leaf %d: input %s / output %s" % (
             k, li[k:k + 6], lo[k:k + 6])
     if not body_spacing_equal(inp[-1:], out[len(inp) - 1:len(inp)]):
-        return "fn-body-spacing", "punctuation spacing inside the fn body changed"
+        return "fn-body-spacing", "punctuation spacing (or None-delimited grouping) inside the fn body changed"
     rest = out[len(inp):]
     ks = kinds_of(tok.split_items(rest))
     if ks != ["trait", "impl"]:
@@ -54,13 +70,19 @@ def check_mod(inp, out, attr):
     if tok.leaves(inp[:bi]) != tok.leaves(out[:bi]) or bi >= len(out) or not tok.is_g(out[bi], "{"):
         return "mod-header", "module header changed: %s -> %s" % (tok.render(inp[:bi]), tok.render(out[:bi + 1], 200))
     inner_i, inner_o = inp[bi]["s"], out[bi]["s"]
-    li, lo = tok.leaves(inner_i), tok.leaves(inner_o)
+    li, lo = sig_leaves(inner_i), sig_leaves(inner_o)
     if lo[:len(li)] != li:
         k = next((i for i, (x, y) in enumerate(zip(li, lo)) if x != y), min(len(li), len(lo)))
         return "mod-items-not-prefix", "module items changed; first difference at leaf %d: input %s / output %s" % (k, li[k:k + 6], lo[k:k + 6])
-    if not body_spacing_equal(inner_i, inner_o[:len(inner_i)]):
-        return "mod-body-spacing", "punctuation spacing inside module item bodies changed"
-    ks = kinds_of(tok.split_items(inner_o[len(inner_i):]))
+    # number of top-level output tokens that cover the input's leaves (flattening may change the top-level count)
+    cut, acc = 0, 0
+    while cut < len(inner_o) and acc < len(li):
+        acc += len(sig_leaves(inner_o[cut:cut + 1]))
+        cut += 1
+    note_flatten(inner_i, inner_o[:cut])
+    if not body_spacing_equal(inner_i, inner_o[:cut]):
+        return "mod-body-spacing", "punctuation spacing (or None-delimited grouping) inside module item bodies changed"
+    ks = kinds_of(tok.split_items(inner_o[cut:]))
     if ks != ["trait", "impl"]:
         return "mod-generated-shape", "generated part at the end of the module is %s, expected [trait, impl]" % ks
     after = out[bi + 1:]
@@ -184,5 +206,6 @@ def run(tier, seed):
         check_record(r, rep, pin.id, pinned="empty_where")
     by[pin.id] = pin
     rep.bump("expansion_records", sum(len(c.records) for c in cases))
+    rep.extra["inputs_whose_signature_lost_none_delimited_groups"] = FLAT_NOTES["n"]
     core.floors(rep, evaluations=n // 3)
     return rep.finish(by)
